@@ -95,7 +95,17 @@ def render_prog(prog, root: str, log: str) -> str:
             # a task generator: creates its inner @task functions when it runs
             L += ["@task(is_generator=True)", f"def {st['fname']}():", f"    _log('TAG:{st['tag']}')"]
             for inner in st["inner"]:
-                L += [f"    @task({wrap_args(inner)})", f"    def {inner['fname']}():", f"        _log('TAG:{inner['tag']}')"]
+                fault = inner.get("fault")
+                args = wrap_args(inner)
+                if fault == "bad-after":
+                    args = (args + ", " if args else "") + "after=5"
+                elif fault == "name-not-str":
+                    args = "name=5"
+                L.append(f"    @task({args})")
+                if fault == "mixed":
+                    L += ["    @pytask.mark.try_first", "    @pytask.mark.try_last"]
+                param = "p=__import__('pathlib').Path(_ROOT)" if fault == "dir-dependency" else ""
+                L += [f"    def {inner['fname']}({param}):", f"        _log('TAG:{inner['tag']}')"]
         elif st["k"] == "wrap":
             o = st["obj"]
             if st.get("bare") and st.get("name") is None and st.get("id") is None and st.get("kwargs") is None:
@@ -636,6 +646,17 @@ def judge(ctx, case, ob):
     if ob.get("raised"):
         ctx.violation(f"build-raised: pytask.build raised {ob['raised']}", rp)
         return False
+    gf = gen_faults(case)
+    has_gen = any(st["k"] == "gen" for pr in case["files"].values() if pr is not None for st in pr["stmts"])
+    if gf and ob["exit"] == 0:
+        ctx.violation(f"generated-task-dropped: the build ended with exit code 0 although a task generator defined a task that "
+                      f"cannot be collected ({gf[0]}); tasks={[t['name'].split('/')[-1] for t in ob['tasks']]}", rp)
+        return False
+    if has_gen and ob["exit"] not in (0, 3):
+        if gf:
+            return True
+        ctx.violation(f"legal-project-failed: exit code {ob['exit']} although every generated task can be collected", rp)
+        return False
     if ob["exit"] == 3:
         if failure_reasons(case, root, ob):
             return True
@@ -1000,15 +1021,38 @@ def prog_case(rng, cid):
             "ext": ext, "ptasks": ptasks}
 
 
+GEN_FAULTS = ["mixed", "dir-dependency", "id-clash", "bad-after", "name-not-str"]
+
+
+def gen_faults(case):
+    """Children of task generators that cannot be collected (declared by the harness): the build must not end with 0."""
+    out = []
+    for rel, pr in case["files"].items():
+        for st in (pr or {}).get("stmts", []):
+            if st["k"] == "gen":
+                out += [f"{rel}: generated task {i['fname']}: {i['fault']}" for i in st["inner"] if i.get("fault")]
+    return out
+
+
 def gen_case(rng, cid):
     """Task generators (oracle only): a generator creates, while it runs, @task functions — with a base name that also
-    exists in a same-named module of another directory, or not."""
+    exists in a same-named module of another directory, or not; some children cannot be collected (both priorities, a
+    directory as dependency, two children with one id, a bad `after`, a name that is no string)."""
     g = Gen(rng)
     n = g.obj()
-    inner_names = rng.choice([["task_x"], ["task_x", "task_y"], ["made"], ["task_x", "task_x"]])
+    inner_names = rng.choice([["task_x"], ["task_x", "task_y"], ["made"], ["task_x", "task_x"], ["made", "task_y", "task_z"]])
     inner = []
     for j, nm in enumerate(inner_names):
         inner.append({"fname": nm, "tag": g.obj(), "name": None, "id": (str(j) if inner_names.count(nm) > 1 else None), "kwargs": None})
+    if rng.random() < 0.45:
+        f = rng.choice(GEN_FAULTS)
+        if f == "id-clash":
+            if len(inner) >= 2:
+                inner[1]["fname"] = inner[0]["fname"]
+                inner[0]["id"] = inner[1]["id"] = "same"
+                inner[0]["fault"] = inner[1]["fault"] = "id-clash"
+        else:
+            rng.choice(inner)["fault"] = f
     gen = {"k": "gen", "obj": n, "fname": "task_gen", "tag": n, "inner": inner}
     stem = rng.choice(["task_m.py", "task_m.py", "task_n.py"])
     files = {"b/" + stem: {"imports": [], "stmts": [gen]},
@@ -1079,6 +1123,12 @@ def witness_cases():
                 "ext": {"progmod.py": {"imports": [], "stmts": [d, {"k": "mark", "obj": d["obj"], "marks": ["try_first"]}]}},
                 "ptasks": [{"src": "ext:progmod.py", "attr": "work", "fname": "work", "tag": d["tag"], "kind": "fn", "name": None,
                             "share": None, "marks": ["try_first"], "deco": False}]})
+    # former F35 (fix f1fcb9a): a task generator defines a child that cannot be collected (both priorities) next to a good one
+    n = g.obj()
+    out.append({"id": "w-f35", "dirs": [], "paths": [""], "ignore": [], "task_files": None, "files": {"task_m.py": {"imports": [], "stmts": [
+        {"k": "gen", "obj": n, "fname": "task_gen", "tag": n, "inner": [
+            {"fname": "task_x", "tag": g.obj(), "name": None, "id": None, "kwargs": None},
+            {"fname": "task_y", "tag": g.obj(), "name": None, "id": None, "kwargs": None, "fault": "mixed"}]}]}}})
     d = g.mkdef("helped", "helped", style="def")
     out.append({"id": "w-ok-leftover", "dirs": [], "paths": [""], "ignore": [], "task_files": None, "files": {
         "helper_a.py": {"imports": [], "stmts": [d, g.wrap(d["obj"])]},
